@@ -1,20 +1,23 @@
 import DracoModel.SeqDecoder
 import DracoProofs.Wrap
+import DracoProofs.SeqStream
 import Mathlib.Data.List.Forall2
 /-
   DracoProofs.SkipEquiv — helper definitions and lemmas for C10 (`SetSkipAttributeTransform`).
 
-  The sequential decoder model `decodeGeometry opts` looks at `opts` only in the very last phase
+  The sequential decoder model `decodeGeometrySeq opts` looks at `opts` only in the very last phase
   of the attribute controller (`TransformAttributesToOriginalFormat`), and that phase reads no
   input.  This file makes that explicit WITHOUT touching the model:
 
     * `decodeSeqStates` / `finishAtt`        the first three phases / the body of the last one,
       `decodeSequentialAttributes_eq`        the controller is their composition;
-    * `geomFront` / `finishGeom`             the same split for the whole decoder,
-      `decodeGeometry_eq`                    `decodeGeometry opts = geomFront >>= finishGeom opts`;
+    * `streamFront` / `finishStream`         the same split for the dispatcher `decodeStreamWith`
+      `decodeStreamWith_eq`                  (complete decoder: `decodeGeometry`, any body decoders),
+    * `geomFront` / `finishGeom`             and for the sequential decoder `decodeGeometrySeq`:
+      `decodeGeometrySeq_eq`                 `decodeGeometrySeq opts = geomFront >>= finishGeom opts`;
     * `finishPure`, `finishAtt_eq`           the last phase is a pure partial function of the
                                              per-attribute state (`ofOption ∘ finishPure`);
-    * `decodeGeometry_some_iff`              hence: `decodeGeometry opts` accepts with result `r`
+    * `decodeGeometrySeq_some_iff`           hence: `decodeGeometrySeq opts` accepts with result `r`
                                              iff `geomFront` accepts with some `fr` (same final
                                              state) and `finishGeomPure opts.skip fr = some r`;
     * `SeqAttState.WF`, `geomFront_wf`       what the first three phases guarantee about every
@@ -363,9 +366,23 @@ theorem decodePointAttributesSeq_eq (opts : DecOpts) (n : Nat) :
     DecM.ret_andThen, decodeSequentialAttributes_eq]
   rfl
 
-/-- `decodeGeometry` (literally the same code) up to the last phase of the attribute controller;
-    does not depend on the decoder options -/
-def geomFront : DecM GeomFront := do
+/-- the last phase + assembling the result -/
+def finishGeom (opts : DecOpts) (fr : GeomFront) : DecM DecodeResult := do
+  let atts ← finishAtts opts fr.numPoints fr.states
+  pure ⟨{ isMesh := fr.isMesh, numPoints := fr.numPoints, faces := fr.faces, atts := atts },
+        fr.metadata⟩
+
+/-- where the dispatcher `decodeStreamWith` stands before anything that depends on the options:
+    a sequential stream decoded up to the last phase of the attribute controller, or the start
+    of an Edgebreaker / kd-tree body -/
+inductive StreamFront where
+  | seq (fr : GeomFront)
+  | eb (md : Option GeometryMetadata)
+  | kd (md : Option GeometryMetadata)
+
+/-- `decodeStreamWith` (literally the same code) up to the first use of the options; does not
+    depend on the options nor on the Edgebreaker / kd-tree body decoders -/
+def streamFront : DecM StreamFront := do
   let h ← decodeHeader
   -- Decoder::GetEncodedGeometryType
   require (h.encoderType < 2)
@@ -379,31 +396,55 @@ def geomFront : DecM GeomFront := do
   setVersion (bsVersion h.major h.minor)
   let ver := bsVersion h.major h.minor
   let md ← if ver ≥ bsVersion 1 3 && h.flags / 32768 % 2 == 1 then (do let g ← lift Leaf.decodeGeometryMetadata; pure (some g)) else pure none
-  if h.encoderMethod != 0 then failWith (.unsupported (if isMesh then "edgebreaker" else "kd-tree")) else
+  if h.encoderMethod != 0 && isMesh then pure (.eb md) else
+  if h.encoderMethod != 0 then pure (.kd md) else
   if isMesh then
     let (numPoints, faces) ← decodeSeqConnectivity
     let st ← decodePointStatesSeq numPoints
-    pure ⟨true, numPoints, faces, md, st⟩
+    pure (.seq ⟨true, numPoints, faces, md, st⟩)
   else
     let np ← rdI32
     -- set_num_points(int32 → uint32)
     let numPoints := toUnsigned 32 np
     declare numPoints
     let st ← decodePointStatesSeq numPoints
-    pure ⟨false, numPoints, [], md, st⟩
+    pure (.seq ⟨false, numPoints, [], md, st⟩)
 
-/-- the last phase + assembling the result -/
-def finishGeom (opts : DecOpts) (fr : GeomFront) : DecM DecodeResult := do
-  let atts ← finishAtts opts fr.numPoints fr.states
-  pure ⟨{ isMesh := fr.isMesh, numPoints := fr.numPoints, faces := fr.faces, atts := atts },
-        fr.metadata⟩
+/-- the options-dependent rest of `decodeStreamWith` -/
+def finishStream (eb kd : DecOpts → DecM Geometry) (opts : DecOpts) :
+    StreamFront → DecM DecodeResult
+  | .seq fr => finishGeom opts fr
+  | .eb md => do let g ← eb opts; pure ⟨g, md⟩
+  | .kd md => do let g ← kd opts; pure ⟨g, md⟩
 
-/-- the decoder is an `opts`-independent front part followed by the last phase -/
-theorem decodeGeometry_eq (opts : DecOpts) :
-    decodeGeometry opts = (do let fr ← geomFront; finishGeom opts fr) := by
-  unfold decodeGeometry geomFront finishGeom
+/-- the dispatcher is an options-independent front part followed by the options-dependent rest -/
+theorem decodeStreamWith_eq (eb kd : DecOpts → DecM Geometry) (opts : DecOpts) :
+    decodeStreamWith eb kd opts = (do let fg ← streamFront; finishStream eb kd opts fg) := by
+  unfold decodeStreamWith streamFront
   simp only [bind, pure, DecM.andThen_assoc, DecM.ite_andThen, DecM.failWith_andThen,
-    DecM.ret_andThen, decodePointAttributesSeq_eq]
+    DecM.ret_andThen, decodePointAttributesSeq_eq, finishStream, finishGeom]
+
+/-- only the sequential streams -/
+def seqOnly : StreamFront → DecM GeomFront
+  | .seq fr => pure fr
+  | .eb _ => failWith (.unsupported "edgebreaker")
+  | .kd _ => failWith (.unsupported "kd-tree")
+
+/-- `decodeGeometrySeq` up to the last phase of the attribute controller; does not depend on the
+    decoder options -/
+def geomFront : DecM GeomFront := do
+  let fg ← streamFront
+  seqOnly fg
+
+/-- the sequential decoder is an `opts`-independent front part followed by the last phase -/
+theorem decodeGeometrySeq_eq (opts : DecOpts) :
+    decodeGeometrySeq opts = (do let fr ← geomFront; finishGeom opts fr) := by
+  unfold decodeGeometrySeq geomFront
+  rw [decodeStreamWith_eq]
+  simp only [bind, DecM.andThen_assoc]
+  congr 1
+  funext fg
+  cases fg <;> rfl
 
 /-! ## the last phase is a pure partial function -/
 
@@ -488,12 +529,12 @@ theorem finishGeom_eq (opts : DecOpts) (fr : GeomFront) :
   rw [finishAtts_eq]
   cases finishAttsPure opts.skip fr.numPoints fr.states <;> rfl
 
-/-- `decodeGeometry opts` accepts with result `r` and final state `s'` exactly when the front
+/-- `decodeGeometrySeq opts` accepts with result `r` and final state `s'` exactly when the front
     part accepts with final state `s'` and the (pure, input-free) last phase is defined -/
-theorem decodeGeometry_some_iff (opts : DecOpts) (s s' : DSt) (r : DecodeResult) :
-    decodeGeometry opts s = (some r, s') ↔
+theorem decodeGeometrySeq_some_iff (opts : DecOpts) (s s' : DSt) (r : DecodeResult) :
+    decodeGeometrySeq opts s = (some r, s') ↔
       ∃ fr, geomFront s = (some fr, s') ∧ finishGeomPure opts.skip fr = some r := by
-  rw [decodeGeometry_eq]
+  rw [decodeGeometrySeq_eq]
   simp only [bind]
   rw [DecM.andThen_some]
   constructor
@@ -506,24 +547,24 @@ theorem decodeGeometry_some_iff (opts : DecOpts) (s s' : DSt) (r : DecodeResult)
     rw [finishGeom_eq, DecM.ofOption_some]
     exact ⟨h2, rfl⟩
 
-theorem decodeGeometry_isSome_iff (opts : DecOpts) (s : DSt) :
-    (decodeGeometry opts s).1.isSome ↔
+theorem decodeGeometrySeq_isSome_iff (opts : DecOpts) (s : DSt) :
+    (decodeGeometrySeq opts s).1.isSome ↔
       ∃ fr s', geomFront s = (some fr, s') ∧ (finishGeomPure opts.skip fr).isSome := by
   constructor
   · intro h
-    cases hd : decodeGeometry opts s with
+    cases hd : decodeGeometrySeq opts s with
     | mk o s' =>
       rw [hd] at h
       cases o with
       | none => cases h
       | some r =>
-        obtain ⟨fr, h1, h2⟩ := (decodeGeometry_some_iff opts s s' r).1 hd
+        obtain ⟨fr, h1, h2⟩ := (decodeGeometrySeq_some_iff opts s s' r).1 hd
         exact ⟨fr, s', h1, by rw [h2]; rfl⟩
   · rintro ⟨fr, s', h1, h2⟩
     cases hf : finishGeomPure opts.skip fr with
     | none => rw [hf] at h2; cases h2
     | some r =>
-      rw [(decodeGeometry_some_iff opts s s' r).2 ⟨fr, h1, hf⟩]; rfl
+      rw [(decodeGeometrySeq_some_iff opts s s' r).2 ⟨fr, h1, hf⟩]; rfl
 
 theorem finishGeomPure_isSome_iff (skip : List Nat) (fr : GeomFront) :
     (finishGeomPure skip fr).isSome ↔
@@ -666,10 +707,15 @@ theorem decodePointStatesSeq_post (n : Nat) :
       exact ⟨s1, h3⟩
     · cases h2
 
-theorem geomFront_states :
-    Post geomFront (fun fr s' => ∀ sts, fr.states = some sts →
-      ∃ s0, decodeSeqStates fr.numPoints s0 = (some sts, s')) := by
-  unfold geomFront
+/-- the property of `geomFront_states`, on a `StreamFront` -/
+def StreamFront.StatesOK : StreamFront → DSt → Prop
+  | .seq fr, s' => ∀ sts, fr.states = some sts →
+      ∃ s0, decodeSeqStates fr.numPoints s0 = (some sts, s')
+  | .eb _, _ => True
+  | .kd _, _ => True
+
+theorem streamFront_states : Post streamFront StreamFront.StatesOK := by
+  unfold streamFront
   refine Post.bind' ?_; intro h
   refine Post.bind' ?_; intro _
   refine Post.bind' ?_; intro _
@@ -677,24 +723,25 @@ theorem geomFront_states :
   refine Post.ite (Post.failWith _ _) ?_
   refine Post.bind' ?_; intro _
   have key : ∀ md : Option GeometryMetadata, Post
-      (if (h.encoderMethod != 0) = true then
-          failWith (Status.unsupported (if (h.encoderType == 1) = true then "edgebreaker" else "kd-tree"))
+      (if (h.encoderMethod != 0 && h.encoderType == 1) = true then pure (StreamFront.eb md)
+        else
+        if (h.encoderMethod != 0) = true then pure (StreamFront.kd md)
         else
           if (h.encoderType == 1) = true then do
             let __x ← decodeSeqConnectivity
             match __x with
               | (numPoints, faces) => do
                 let st ← decodePointStatesSeq numPoints
-                pure (⟨true, numPoints, faces, md, st⟩ : GeomFront)
+                pure (StreamFront.seq ⟨true, numPoints, faces, md, st⟩)
           else do
             let np ← rdI32
             declare (toUnsigned 32 np)
             let st ← decodePointStatesSeq (toUnsigned 32 np)
-            pure (⟨false, toUnsigned 32 np, [], md, st⟩ : GeomFront))
-      (fun fr s' => ∀ sts, fr.states = some sts →
-        ∃ s0, decodeSeqStates fr.numPoints s0 = (some sts, s')) := by
+            pure (StreamFront.seq ⟨false, toUnsigned 32 np, [], md, st⟩))
+      StreamFront.StatesOK := by
     intro md
-    refine Post.ite (Post.failWith _ _) ?_
+    refine Post.ite (Post.pure (fun _ => trivial)) ?_
+    refine Post.ite (Post.pure (fun _ => trivial)) ?_
     refine Post.ite ?_ ?_
     · apply Post.bind'; rintro ⟨np, faces⟩
       refine Post.bind (decodePointStatesSeq_post np) ?_
@@ -712,6 +759,27 @@ theorem geomFront_states :
     exact key md
   · refine Post.bind' ?_; intro md
     exact key md
+
+/-- `geomFront` accepts exactly when `streamFront` accepts with a sequential stream -/
+theorem geomFront_some_iff (s s' : DSt) (fr : GeomFront) :
+    geomFront s = (some fr, s') ↔ streamFront s = (some (.seq fr), s') := by
+  unfold geomFront
+  simp only [bind]
+  rw [DecM.andThen_some]
+  constructor
+  · rintro ⟨fg, s1, h1, h2⟩
+    cases fg with
+    | seq fr' => cases h2; exact h1
+    | eb _ => cases h2
+    | kd _ => cases h2
+  · intro h
+    exact ⟨_, _, h, rfl⟩
+
+theorem geomFront_states :
+    Post geomFront (fun fr s' => ∀ sts, fr.states = some sts →
+      ∃ s0, decodeSeqStates fr.numPoints s0 = (some sts, s')) := by
+  intro s fr s' h
+  exact streamFront_states s _ s' ((geomFront_some_iff s s' fr).1 h)
 
 /-- every per-attribute state handed to the last phase is well formed -/
 theorem geomFront_wf (s s' : DSt) (fr : GeomFront) (h : geomFront s = (some fr, s'))
@@ -914,12 +982,33 @@ theorem finishGeomPure_rel₂ (R : Attribute → Attribute → Prop) (S T : List
         exact ⟨rfl, rfl, rfl, rfl, DecM.mapOpt_rel₂ R _ _ sts (h sts hst) atts atts' hS hT⟩
 
 /-- a rejected last phase leaves the input position where the front part left it -/
-theorem decodeGeometry_none_of_front (opts : DecOpts) (s s' : DSt) (fr : GeomFront)
+theorem decodeGeometrySeq_none_of_front (opts : DecOpts) (s s' : DSt) (fr : GeomFront)
     (h : geomFront s = (some fr, s')) (hf : finishGeomPure opts.skip fr = none) :
-    decodeGeometry opts s =
+    decodeGeometrySeq opts s =
       (none, if s'.status == .ok then { s' with status := .error } else s') := by
-  rw [decodeGeometry_eq]
+  rw [decodeGeometrySeq_eq]
   simp only [bind, DecM.andThen, h, finishGeom_eq, hf]
   rfl
+
+/-- a run of the dispatcher is a run of the front part followed by a run of the rest -/
+theorem decodeStreamWith_some_iff (eb kd : DecOpts → DecM Geometry) (opts : DecOpts)
+    (s s' : DSt) (r : DecodeResult) :
+    decodeStreamWith eb kd opts s = (some r, s') ↔
+      ∃ fg s1, streamFront s = (some fg, s1) ∧ finishStream eb kd opts fg s1 = (some r, s') := by
+  rw [decodeStreamWith_eq]
+  simp only [bind]
+  rw [DecM.andThen_some]
+
+/-- a stream is sequential when the evaluated header says so (for concrete streams) -/
+theorem isSeqStream_of_eval (s : DSt)
+    (h : (decodeHeader s).1.map (·.encoderMethod) = some 0) : IsSeqStream s := by
+  cases hd : decodeHeader s with
+  | mk o s1 =>
+    rw [hd] at h
+    cases o with
+    | none => cases h
+    | some hdr =>
+      simp only [Option.map_some, Option.some.injEq] at h
+      exact ⟨hdr, s1, hd, h⟩
 
 end Draco
